@@ -43,7 +43,7 @@ def reg(p):
 
 
 reg(Prop('C01', lambda r, i, t: pc.gen_item(r, i, t, 'C01'), pc.eval_C01, 8000, 600000, RULE_COMPUTE, ASSUME_COMPUTE,
-         ['C01_run_partition', 'C01_step_adds_exactly', 'C01_assigned_iff', 'C01_dropped_whole', 'C01_assigned_once', 'C01_default_min_lt', 'C01_default_min_old_iff', 'C01_default_min_old_witness', 'C01_label_map_refines', 'C01_label_map_domain']))
+         ['C01_run_partition', 'C01_step_adds_exactly', 'C01_assigned_iff', 'C01_dropped_whole', 'C01_assigned_once', 'C01_default_min_lt', 'C01_default_min_old_iff', 'C01_default_min_old_witness', 'C01_label_map_refines', 'C01_label_map_domain', 'C01_final_label_map', 'C01_final_label_none_iff', 'C01_final_labels_are_ids']))
 reg(Prop('C02', lambda r, i, t: pc.gen_item_C02(r, i, t, 'C02'), pc.eval_C02, 6000, 300000, RULE_COMPUTE, ASSUME_COMPUTE,
          ['C02_arity', 'C02_iteration_is_prefix_order', 'C02_parent_before_child', 'C02_temp_ids_unique', 'C02_final_ids', 'C02_compute_ids', 'C02_compute_arity', 'C02_reachable_wellformed']))
 reg(Prop('C03', lambda r, i, t: pc.gen_item(r, i, t, 'C03'), pc.eval_C03, 6000, 400000, RULE_COMPUTE, ASSUME_COMPUTE,
